@@ -5,7 +5,8 @@
   RFC 2782 (SRV), RFC 2915/3403 (NAPTR): the types for which RFC 3597 §4 says a receiver should expand
   compressed names in RDATA.  Every other type is opaque (RFC 3597): RDATA is a byte string.
 * Names are tuples of raw byte labels (RFC 2181 §11: any octets), never text.  Comparison of names is
-  ASCII-case-insensitive (RFC 4343); ``canon`` lower-cases A-Z only.
+  ASCII-case-insensitive (RFC 4343) in ``key()``/``qkey()`` (``canon`` lower-cases A-Z only) and octet-exact in
+  ``key_exact()``/``qkey_exact()`` -- a forwarder must preserve case (DNS 0x20), so checks assert both.
 
 Decoded model
     Msg(id, qr, opcode, aa, tc, rd, ra, z, rcode, questions=[Q(name,type,klass)], sections=[[RR..],[RR..],[RR..]])
@@ -215,6 +216,15 @@ class Msg:
 
     def qkey(self):
         return tuple(q.key() for q in self.questions)
+
+    # Names are case-insensitive for *matching* (RFC 4343) but a forwarder has to preserve their octets: resolvers using
+    # 0x20 mixed-case randomisation compare the echoed question byte for byte.  The *_exact keys keep the wire case.
+    def qkey_exact(self):
+        return tuple((tuple(q.name), q.type, q.klass) for q in self.questions)
+
+    def key_exact(self):
+        return (self.header(), self.qkey_exact(),
+                tuple(tuple((tuple(r.name), r.type, r.klass, r.ttl, tuple(r.fields)) for r in s) for s in self.sections))
 
     def __repr__(self):
         return "Msg(id=%d qr=%d op=%d aa=%d tc=%d rd=%d ra=%d z=%d rcode=%d q=%r an=%r ns=%r ar=%r)" % (
